@@ -582,6 +582,16 @@ func (d decomposed192) log() (bool, decomposed192, int8) {
 		msd *= 10
 	}
 
+	// For 0.95 <= x < 1 the terms ln(msd) - ln(10) nearly cancel the series
+	// and the digits of a result close to zero are lost. The series converges
+	// quickly on x itself, so use it directly; the result is negative.
+	below := exp == -1 && msd >= 95
+	if below {
+		d.exp--
+		exp = 0
+		msd = 10
+	}
+
 	var trunc int8
 	if msd > 10 {
 		d, trunc = d.quo(decomposed192{
@@ -623,6 +633,10 @@ func (d decomposed192) log() (bool, decomposed192, int8) {
 		sig: uint192{2, 0, 0},
 		exp: 0,
 	}, trunc)
+
+	if below {
+		return true, res, trunc
+	}
 
 	neg := false
 	if expNeg {
